@@ -9,5 +9,7 @@ CONSTANTS
   FullOffsets <- Off0
   LiteOffsets <- Off48
   AllOnlyOffsets <- OffOthers
-INVARIANTS TypeOK PExact PIdempotent PHistory PCore PIdentity PModule PSanity Emit
+  RouteSteps = 0
+  RouteFull = FALSE
+INVARIANTS TypeOK PExact PIdempotent PHistory PCore PIdentity PRoute PModule PSanity Emit
 CHECK_DEADLOCK FALSE
